@@ -111,7 +111,7 @@ def partitions(tier, seed):
     for m in spec.METHODS:
         if q and m['name'] not in QUICK_CLASSES:
             continue
-        parts.append(_method_part(m, 1, 200 if q else 900))
+        parts.append(_method_part(m, 1, 200 if q else 480))
     parts.append(Part('twin_cut_body', [('ch', 'int'), ('content', 'bytes'), ('k', 'int')],
                       ['0 <= ch <= 65535', 'len(content) == 2', '0 <= k <= 10'],
                       'def body(ch, content, k):\n'
